@@ -141,19 +141,23 @@ def c13(tier, seed):
     exe, ext = build.build_hist("idn2")
     build_info = {"real_or_stub": REAL_STUB["idn2"], "library_externals": ext, "tree": build.tree_fingerprint()}
     det = determinism_selftest(exe, "C13", ["nofault", "fault"], seed, 160 if tier == "quick" else 2000, W, 3)
-    secs = 7 if tier == "quick" else 240
-    batches = [Batch("nofault", exe, "C13", "nofault", seed, 10**8, secs, W, samples=True, start=0).run(),
-               Batch("fault", exe, "C13", "fault", seed, 10**8, secs, W, samples=True, start=0).run()]
+    # quick: a fixed amount of work (so that two runs of the same tree report the same coverage) under a generous time cap;
+    # thorough: as much as the time allows
+    secs = 90 if tier == "quick" else 240
+    cnt = 12000 if tier == "quick" else 10**8
+    batches = [Batch("nofault", exe, "C13", "nofault", seed, cnt, secs, W, samples=True, start=0).run(),
+               Batch("fault", exe, "C13", "fault", seed, cnt, secs, W, samples=True, start=0).run()]
     # systematic small-scope part: every sequence of length <= 4 (quick) / 5 (thorough) over a 21-symbol alphabet
     small_n = 21 + 21**2 + 21**3 + 21**4 + (21**5 if tier == "thorough" else 0)
     small = Batch("small-scope", exe, "C13", "small", seed, small_n, 0, W).run()
     batches.append(small)
     # the other two copies of eav.c are part of C13's anchors: same histories on the adapter builds
-    osecs = 3 if tier == "quick" else 90
+    osecs = 60 if tier == "quick" else 90
+    ocnt = 3000 if tier == "quick" else 10**8
     for bk in ("idn", "idnkit"):
         exe_b, _ = build.build_hist(bk)
-        batches.append(Batch(bk + "-nofault", exe_b, "C13", "nofault", seed + 2, 10**8, osecs, W).run())
-        batches.append(Batch(bk + "-fault", exe_b, "C13", "fault", seed + 2, 10**8, osecs, W).run())
+        batches.append(Batch(bk + "-nofault", exe_b, "C13", "nofault", seed + 2, ocnt, osecs, W).run())
+        batches.append(Batch(bk + "-fault", exe_b, "C13", "fault", seed + 2, ocnt, osecs, W).run())
     build_info["other_backends"] = REAL_STUB["idn"] + REAL_STUB["idnkit"]
     if tier == "thorough":
         exe2, _ = build.build_hist("idn2", extra=True)
@@ -184,10 +188,11 @@ def c19(tier, seed):
     det = determinism_selftest(exe, "C19", ["single", "multi"], seed, 160 if tier == "quick" else 2000, W, 3)
     nbase = 2 if tier == "quick" else 40
     per_base = 50 * 30 * 3
-    secs = 6 if tier == "quick" else 300
-    batches = [Batch("nofault", exe, "C19", "nofault", seed, 10**8, 3 if tier == "quick" else 60, W, samples=True).run(),
+    secs = 90 if tier == "quick" else 300
+    q = tier == "quick"
+    batches = [Batch("nofault", exe, "C19", "nofault", seed, 4000 if q else 10**8, 60, W, samples=True).run(),
                Batch("single", exe, "C19", "single", seed, nbase * per_base, 0, W, samples=True).run(),
-               Batch("multi", exe, "C19", "multi", seed, 10**8, secs, W, samples=True).run()]
+               Batch("multi", exe, "C19", "multi", seed, 8000 if q else 10**8, secs, W, samples=True).run()]
     if tier == "thorough":
         exe2, _ = build.build_hist("idn2", extra=True)
         batches.append(Batch("extra-single", exe2, "C19", "single", seed + 1, 4 * per_base, 0, W).run())
@@ -268,7 +273,8 @@ def c18(tier, seed):
     build_info = {"real_or_stub": REAL_STUB["idn2"][:2] + REAL_STUB["idn"] + REAL_STUB["idnkit"],
                   "library_externals": exts, "tree": build.tree_fingerprint()}
     det = determinism_selftest(exes["idnkit"], "C18", ["lockstep-fault", "ctxfault"], seed, 120 if tier == "quick" else 1500, W, 3)
-    secs = 6 if tier == "quick" else 240
+    secs = 90 if tier == "quick" else 240
+    lcnt = 3000 if tier == "quick" else 10**8
     violations, known, nondet = [], [], []
     batches = []
     lock_info = {}
@@ -276,7 +282,7 @@ def c18(tier, seed):
         if cfg == "corpus":
             bs, ncommon, mism = lockstep_compare("C18", seed, cfg, exes, 470, 0, W)
         else:
-            bs, ncommon, mism = lockstep_compare("C18", seed, cfg, exes, 10**8, secs, W)
+            bs, ncommon, mism = lockstep_compare("C18", seed, cfg, exes, lcnt, secs, W)
         batches += list(bs.values())
         lock_info[cfg] = {"plans_compared_across_three_backends": ncommon, "mismatching_plans": len(mism)}
         for i in mism[:2]:
@@ -291,7 +297,7 @@ def c18(tier, seed):
             else:
                 nondet.append(payload)
     # context ledger under backend-init faults: idnkit only
-    ctxb = Batch("ctxfault-idnkit", exes["idnkit"], "C18", "ctxfault", seed, 10**8, secs, W, samples=True).run()
+    ctxb = Batch("ctxfault-idnkit", exes["idnkit"], "C18", "ctxfault", seed, 8000 if tier == "quick" else 10**8, secs, W, samples=True).run()
     batches.append(ctxb)
     v2, k2, n2 = handle_candidates("C18", batches)
     violations += v2; known += k2; nondet += n2
